@@ -35,9 +35,32 @@ ROOT = os.path.dirname(os.path.dirname(os.path.dirname(os.path.abspath(__file__)
 PY = sys.executable
 
 
+COLLIDING = ["Client", "Server", "PACKET", "Net", "Map", "Pub", "Data", "Encrypt", "Protocol", "Sys"]
+PATHS = ["", "net", "net/client", "net/server", "map", "pub", "pub/server"]
+FORBIDDEN = {"": {"net", "map", "pub"}, "net": {"client", "server"}, "pub": {"server"}}
+N_COLLISION = {"quick": 4, "thorough": 14}
+
+
+def collision_tree(seed, k):
+    """A SpecGen tree plus one type per awkward name, placed in directory (k + i) mod 7 (skipping the
+    placements where the module would collide with a sub-directory): every name meets every directory
+    over 7 consecutive k."""
+    spec, feats = campaign.make_spec(seed, 5000 + k, awkward_names=False, allow_empty=False)
+    taken = {n.lower() for n in spec.types()}
+    for i, name in enumerate(COLLIDING):
+        path = PATHS[(k + i) % len(PATHS)]
+        if name.lower() in FORBIDDEN.get(path, ()) or name.lower() in taken:
+            continue
+        if i % 2:
+            spec.files[path].enums.append(S.Enum(name, "char", [("A", 1, None), ("B", 2, None)]))
+        else:
+            spec.files[path].structs.append(S.Struct(name, [S.Field("x", "char")]))
+    return spec
+
+
 def shards(tier, seed):
     out = []
-    for ti in [-1] + list(range(TREES[tier])):
+    for ti in [-1] + list(range(TREES[tier])) + [1000 + k for k in range(N_COLLISION[tier])]:
         for part in range(4):
             out.append({"tree": ti, "part": part, "parts": 4})
     return out
@@ -51,7 +74,11 @@ def classify(mech, text):
 
 def run(shard, rec, tier, seed):
     ti = shard["tree"]
-    spec, feats = campaign.make_spec(seed, ti, awkward_names=True, allow_empty=False)
+    if ti >= 1000:
+        spec = collision_tree(seed, ti - 1000)
+        rec.count("collision-trees")
+    else:
+        spec, feats = campaign.make_spec(seed, ti, awkward_names=True, allow_empty=False)
     if grammar.check(spec):
         rec.inconclusive.append("SpecGen tree %d fails its grammar certificate" % ti)
         return
